@@ -261,11 +261,11 @@ def pipeline (re : ReEnv) (allowUnwrap : Bool) : Nat → Toks → Option (List S
        | none => none)
     | .kw .pipe :: .kw .unwrap :: _ => if allowUnwrap then some ([], toks) else none
     | .kw .pipe :: .ident l :: rest =>
-      (match predOr re (toks.length + 1) (.ident l :: rest) with
+      (match predOr re (3 * toks.length + 3) (.ident l :: rest) with
        | some (p, rest') => more (.labelFilter p) rest'
        | none => none)
     | .kw .pipe :: .kw .lparen :: rest =>
-      (match predOr re (toks.length + 1) (.kw .lparen :: rest) with
+      (match predOr re (3 * toks.length + 3) (.kw .lparen :: rest) with
        | some (p, rest') => more (.labelFilter p) rest'
        | none => none)
     | .kw .pipe :: _ => none
